@@ -59,10 +59,11 @@ type Path struct {
 
 	unknownBranches int
 	Checks          int
+	decided         map[[2]uint64]bool // conditions already fixed on this path
 }
 
 func newPath(s *smt.Solver, prefix []int, known []KnownClass) *Path {
-	p := &Path{S: s, P: smt.NewPrinter(), prefix: prefix, inNames: map[string]*smt.Term{}, classes: map[string]*smt.Term{}, known: known}
+	p := &Path{S: s, P: smt.NewPrinter(), prefix: prefix, inNames: map[string]*smt.Term{}, classes: map[string]*smt.Term{}, known: known, decided: map[[2]uint64]bool{}}
 	s.Send("(push 1)\n")
 	return p
 }
@@ -246,7 +247,14 @@ func (p *Path) branch(c *smt.Term) bool {
 	if c.IsConst() {
 		return c.C == 1
 	}
-	return p.choose([]*smt.Term{c, smt.Not(c)}) == 0
+	k := c.Key()
+	if v, ok := p.decided[k]; ok {
+		return v
+	}
+	r := p.choose([]*smt.Term{c, smt.Not(c)}) == 0
+	p.decided[k] = r
+	p.decided[smt.Not(c).Key()] = !r
+	return r
 }
 
 // newInput declares a fresh named input variable.
